@@ -234,9 +234,11 @@ def main():
     chk = hg.Check("C19")
     quick = chk.tier == "quick"
     rng = random.Random(hg.seed() * 131 + 19)
-    # 0. level B with a named slip must violate level A (the invariants have teeth); runs while the rest works
-    faults = hg.models_start([("MCResolution", "Resolution.fault_%s.cfg" % f, "InvLevelA", "Resolution-fault-" + f) for f in FAULTS],
-                             workers=1)
+    # 0. level B with a named slip must violate level A (the invariants have teeth).  Quick tier: MCResolution ASSUMEs it in the
+    #    exhaustive run itself (FaultCaughtBy, no extra JVM); thorough tier: additionally one configuration per fault in which
+    #    TLC must report InvLevelA violated, running while the rest works
+    faults = None if quick else hg.models_start(
+        [("MCResolution", "Resolution.fault_%s.cfg" % f, "InvLevelA", "Resolution-fault-" + f) for f in FAULTS], workers=1)
     # 1. exhaustive: level B against level A's clauses, order independence, matcher agreement; prints every scenario
     res = hg.tlc("MCResolution", "Resolution.quick.cfg" if quick else "Resolution.thorough.cfg", timeout=3600)
     if res.violation:
@@ -365,8 +367,10 @@ def main():
             chk.violation("res:%s:%s" % (why, case), desc, replay)
     if rejected:
         chk.notes["rejected_scenarios_per_clause"] = per_clause
-    hg.models_finish(chk, faults)
-    chk.notes["level_B_named_faults_rejected_by_level_A"] = list(FAULTS)
+    if faults is not None:
+        hg.models_finish(chk, faults)
+    chk.notes["level_B_named_faults_rejected_by_level_A"] = {
+        "faults": list(FAULTS), "how": "ASSUME FaultCaughtBy in MCResolution" + ("" if quick else " + one fault configuration each (InvLevelA violated)")}
     chk.coverage["states"] += st
     chk.coverage["transitions"] += trn
     chk.coverage["traces_validated_against_impl"] += nitems
